@@ -268,6 +268,7 @@ func c12judge(c c12case, choose verifseam.Chooser) (kind, detail string) {
 }
 
 func c12run(w *report.W) {
+	seamconfReport(w)
 	maxPieces := 3
 	if w.Thorough() {
 		maxPieces = 4
